@@ -243,8 +243,8 @@ def parse_assumptions(out):
     names = set()
     for b in blocks:
         for line in b.splitlines():
-            m = re.match(r"^([A-Za-z_][\w\.']*)\s*:", line)
-            if m and m.group(1) != "Axioms":
+            m = re.match(r"^([A-Za-z_][\w\.']*)\s*(:|$)", line)
+            if m and m.group(1) not in ("Axioms", "Warning", "File", "New"):
                 names.add(m.group(1))
     return closed, sorted(names)
 
